@@ -15,6 +15,9 @@ def run(c):
     cfg = 'MergeLaws.cfg' if not thorough else 'MergeLaws_thorough.cfg'
     r = vlib.tlc_must_pass('MergeLaws', cfg, workers=16 if thorough else 8, timeout=3000 if thorough else 900, keep=True)
     c.add_tlc(cfg, r)
+    # the merge on real DBIs of several hundred entries (byte keys and integer keys whose numeric order differs from
+    # their byte order), incl. stale snapshots merged again: nothing moves backwards
+    vlib.absorb(c, vlib.run_harness(['bulk', 'C02'], timeout=600))
     c.assumptions += [
         'application values are abstracted to 3 (thorough: 4) ordered classes concretised as byte strings (empty, 1 byte, NUL bytes, 3 kB with common prefix)',
         'timestamps are abstracted to 0..3 (thorough 0..4) concretised order-preservingly up to 2^64-1',
